@@ -82,7 +82,8 @@ def hooks():
         (r'^std::arch::x86_64::_mm256_setzero_pd$', lambda ex, st, c, a: [BitVecVal(0, 64) if isinstance(ex, IntDomainExec) else FPVal(0.0, F64)] * 4), (r'^std::arch::x86_64::_mm256_set1_pd$', lambda ex, st, c, a: [a[0]] * 4),
         (r'^std::arch::x86_64::_mm256_loadu_pd$', h_loadu), (r'^std::arch::x86_64::_mm256_storeu_pd$', h_storeu),
         (r'^std::arch::x86_64::_mm256_add_pd$', lanes2(lambda a, b: fpAdd(RNE(), a, b) if z3.is_fp(a) else a + b)),
-        (r'^std::arch::x86_64::_mm256_min_pd$', lanes2(lambda a, b: If(fpLT(a, b), a, b))), (r'^std::arch::x86_64::_mm256_max_pd$', lanes2(lambda a, b: If(fpGT(a, b), a, b))),
+        (r'^std::arch::x86_64::_mm256_min_pd$', lanes2(lambda a, b: If(fpLT(a, b) if z3.is_fp(a) else ULT(a, b), a, b))), (r'^std::arch::x86_64::_mm256_max_pd$', lanes2(lambda a, b: If(fpGT(a, b) if z3.is_fp(a) else z3.UGT(a, b), a, b))),
+        (r'^core::f64::<impl f64>::(min|max)$', lambda ex, st, c, a: NotImplemented if z3.is_fp(a[0]) else (If(ULT(a[1], a[0]), a[1], a[0]) if c.endswith('min') else If(z3.UGT(a[1], a[0]), a[1], a[0]))),
         (r'^std_detect::detect::arch::x86::__is_feature_detected::avx2$', lambda ex, st, c, a: ex.fresh('avx2', 'bool')),
     ]
 
@@ -93,6 +94,10 @@ class IntDomainExec(Exec):
     def const(self, c):
         m = __import__('re').match(r'(-?\d+(?:\.0*)?)f64$', c)
         if m: return BitVecVal(int(float(m.group(1))), 64)
+        # order domain for min/max: NaN-free doubles under IEEE comparison are a total order with least element -inf and greatest +inf;
+        # the kernels only compare and select, so they are run over the unsigned 64-bit order with 0 / 2^64-1 as the infinities
+        if c.endswith('f64>::NEG_INFINITY') or c.endswith('f64::NEG_INFINITY'): return BitVecVal(0, 64)
+        if c.endswith('f64>::INFINITY') or c.endswith('f64::INFINITY'): return BitVecVal(2 ** 64 - 1, 64)
         return super().const(c)
 
 
@@ -108,16 +113,22 @@ def inputs(n, mode):
         pre = And(*[And(k >= -(1 << 20), k <= (1 << 20)) for k in ks]) if ks else BoolVal(True)
         exact = sum(ks, BitVecVal(0, 64))
         return ks, pre, exact, ks
+    if mode == 'ord':
+        xs = [BitVec('o%d' % i, 64) for i in range(n)]
+        return xs, BoolVal(True), None, xs
     xs = [FP('x%d' % i, F64) for i in range(n)]
     pre = And(*[Not(fpIsNaN(x)) for x in xs]) if xs else BoolVal(True)
     return xs, pre, None, xs
 
 
-def job(fn, n):
+def job(fn, n, domain='ieee'):
     t0 = time.time()
     kind = 'sum' if 'sum' in fn else ('min' if 'min' in fn else 'max')
-    ex = mk_exec(int_domain=(kind == 'sum'))
-    xs, pre, exact, syms = inputs(n, 'int' if kind == 'sum' else 'nan-free')
+    ex = mk_exec(int_domain=(kind == 'sum' or domain == 'ord'))
+    xs, pre, exact, syms = inputs(n, 'int' if kind == 'sum' else ('ord' if domain == 'ord' else 'nan-free'))
+    EQ = (lambda a, b: a == b) if domain == 'ord' else fpEQ
+    LE = (lambda a, b: ULE(a, b)) if domain == 'ord' else fpLEQ
+    GE = (lambda a, b: z3.UGE(a, b)) if domain == 'ord' else fpGEQ
     st = State(); st.path.assume(pre)
     sl = Ptr([ListModel(list(xs))], 0, meta=BitVecVal(n, 64))
     results = ex.run(fn, [sl], st=st)
@@ -135,9 +146,9 @@ def job(fn, n):
         else:
             v = rv
         if n > 0:
-            out.append(('%s is one of the elements' % kind, Or(*[fpEQ(v, x) for x in xs])))
+            out.append(('%s is one of the elements' % kind, Or(*[EQ(v, x) for x in xs])))
             for i, x in enumerate(xs):
-                out.append(('%s is %s element %d' % (kind, '<=' if kind == 'min' else '>=', i), fpLEQ(v, x) if kind == 'min' else fpGEQ(v, x)))
+                out.append(('%s is %s element %d' % (kind, '<=' if kind == 'min' else '>=', i), LE(v, x) if kind == 'min' else GE(v, x)))
         return out
     vs = discharge(ex, results, post)
     outv = []
@@ -146,7 +157,7 @@ def job(fn, n):
         if v.model is not None:
             d['witness'] = [str(v.model.eval(s, True)) for s in syms]
         outv.append(d)
-    return {'fn': fn, 'n': n, 'paths': len(results), 'verdicts': outv, 'queries': ex.queries, 'solver_s': ex.solver_s, 'inconclusive': list(ex.inconclusive), 'wall_s': time.time() - t0}
+    return {'fn': fn, 'n': n, 'domain': (' (order domain)' if domain == 'ord' else ''), 'paths': len(results), 'verdicts': outv, 'queries': ex.queries, 'solver_s': ex.solver_s, 'inconclusive': list(ex.inconclusive), 'wall_s': time.time() - t0}
 
 
 def _worker(a):
@@ -176,11 +187,18 @@ def run(ctx):
     ctx.assumptions += ['AVX2 intrinsics: _mm256_{setzero,set1,loadu,storeu,add,min,max}_pd as 4-lane IEEE-754 operations (min/max return the second operand when unordered)',
                         'raw pointers are (slice, offset); get_unchecked / vector loads and stores are in-bounds obligations']
     tasks = [(fn, n) for fn in FNS for n in range(0, NMAX + 1) if not (n == 0 and fn.endswith(('_scalar', '_avx2')) and not fn.startswith('sum'))]
+    # the vector kernels do not fork per element (lane-wise min/max are if-then-else terms), so they are taken much further: enough
+    # for two levels of unrolling (8- or 16-wide) on both sides of a full block plus every remainder; the sum kernels likewise
+    VMAX = 17 if ctx.tier == 'quick' else 36
+    tasks += [(fn, n) for fn in ('sum_f64_avx2', 'sum_f64_scalar') for n in range(NMAX + 1, VMAX + 1)]
+    tasks += [(fn, n, 'ord') for fn in ('min_f64_avx2', 'max_f64_avx2') for n in range(1, VMAX + 1)]
+    tasks += [(fn, n, 'ord') for fn in ('min_f64_scalar', 'max_f64_scalar') for n in range(1, (8 if ctx.tier == 'quick' else 11))]   # one fork per element
+    ctx.bounds['vector_kernel_lengths'] = '0..%d for the AVX2 kernels and both sum kernels' % VMAX
     with ProcessPoolExecutor(max_workers=14, mp_context=mp.get_context('fork')) as pool:
         res = list(pool.map(_worker, tasks))
     binp = None; seen = set()
     for r in res:
-        tgt = 'simd::' + r['fn']; cls = 'slice of %d elements' % r['n']
+        tgt = 'simd::' + r['fn']; cls = 'slice of %d elements%s' % (r['n'], r.get('domain', ''))
         if r.get('error'):
             ctx.inconclusive.append('%s (%s): %s' % (tgt, cls, r['error'])); continue
         for why in r['inconclusive']: ctx.inconclusive.append('%s (%s): %s' % (tgt, cls, why))
@@ -195,3 +213,81 @@ def run(ctx):
             if binp is None: binp = replay.build('rt', rustflags='--cfg varpulis_verif')     # hooks expose the scalar kernels natively
             ctx.findings.append(Finding(key, '%s on %s: %s violated (witness %s)' % (tgt, cls, v['name'], v.get('witness')), [binp, 'simd', '12'], {'witness': v.get('witness'), 'n': r['n']}))
     ctx.models += sorted(models.USED)
+
+
+# ------------------------------------------------------------------------------------------------ aggregate wrappers over events
+class FieldMap:
+    """event.data: the aggregated field is missing or holds a symbolic value of any type"""
+    def __init__(self, opt): self.opt = opt
+
+
+def agg_job(agg, method, k):
+    """<Agg as AggregateFunc>::{apply, apply_refs} on k events whose field is missing / Int / Float (any bits, NaN included) / non-numeric"""
+    import re
+    from props import valmodel as V
+    from props.winmodel import event_fields
+    t0 = time.time()
+    vals = []; pres = []; cons = []
+    for i in range(k):
+        v, c = V.sym_value('f%d' % i, ['Int', 'Float', 'Str', 'Null', 'Bool'])
+        p = z3.Bool('present%d' % i)
+        vals.append(v); pres.append(p); cons.append(c)
+    ef = event_fields()
+    events = []
+    for i in range(k):
+        opt = Enum('Option', If(pres[i], BitVecVal(1, 64), BitVecVal(0, 64)), {'Some': [box(vals[i])], 'None': []})
+        d = {'event_type': Opaque('type'), 'timestamp': BitVecVal(0, 64), 'data': FieldMap(opt)}
+        events.append([d[x] for x in ef])
+
+    def h_data_get(ex, st, callee, args):
+        m = ex.deref(args[0])
+        if not isinstance(m, FieldMap): return NotImplemented
+        return m.opt
+    hk = [(re.compile(r'^(?:indexmap::)?IndexMap::<Arc<str>, (?:varpulis_core::)?Value, .*>::get::<str>$'), h_data_get)]
+    hk += [(re.compile(p), f) for p, f in hooks()] + V.VALUE_HOOKS + containers.container_hooks() + models.generic_hooks()
+    mods = [_MOD, _CORE]
+    ex = Exec(mods, hk, variants=V.variants(), loop_bound=16, step_budget=60000)
+    st = State(); st.path.assume(And(*cons) if cons else BoolVal(True))
+    if method == 'apply':
+        arg = Ptr([ListModel(events)], 0, meta=BitVecVal(k, 64))
+    else:
+        arg = Ptr([ListModel([Ptr(events, i) for i in range(k)])], 0, meta=BitVecVal(k, 64))
+    field = Enum('Option', BitVecVal(0, 64), {'Some': [Opaque('field-name')], 'None': []})
+    results = ex.run('<%s as AggregateFunc>::%s' % (agg, method), [box([]), arg, field], st=st)
+    # definition over the valid numeric values
+    num = []
+    for i in range(k):
+        isint = vals[i].disc == V.vdisc('Int'); isfl = vals[i].disc == V.vdisc('Float')
+        x = If(isint, fpSignedToFP(RNE(), vals[i].fields['Int'][0], F64), vals[i].fields['Float'][0])
+        num.append((And(pres[i], Or(isint, isfl), Not(fpIsNaN(x))), x))
+    cnt = sum([If(c, BitVecVal(1, 64), BitVecVal(0, 64)) for c, _ in num], BitVecVal(0, 64))
+    acc = FPVal(0.0, F64)
+    for c, x in num: acc = If(c, fpAdd(RNE(), acc, x), acc)
+    same = lambda a, b: Or(And(fpIsNaN(a), fpIsNaN(b)), fpEQ(a, b))
+
+    def post(r):
+        rv = r.ret
+        isf = rv.disc == V.vdisc('Float'); isn = rv.disc == V.vdisc('Null')
+        fv = rv.fields['Float'][0] if 'Float' in rv.fields else FPVal(0.0, F64)
+        out = []
+        if agg == 'Sum':
+            out.append(('sum of the valid numeric values (missing, non-numeric and NaN values ignored)', And(isf, same(fv, acc))))
+        elif agg == 'Avg':
+            out.append(('no valid value gives Null', (cnt == 0) == isn))
+            out.append(('avg = sum of valid values / their count', Implies(cnt != 0, And(isf, same(fv, z3.fpDiv(RNE(), acc, z3.fpUnsignedToFP(RNE(), cnt, F64)))))))
+        else:
+            out.append(('no valid value gives Null', (cnt == 0) == isn))
+            out.append(('%s is one of the valid values' % agg.lower(), Implies(cnt != 0, And(isf, Or(*[And(c, fpEQ(fv, x)) for c, x in num]) if num else BoolVal(False)))))
+            for i, (c, x) in enumerate(num):
+                out.append(('%s bounds valid value %d' % (agg.lower(), i), Implies(And(cnt != 0, c), fpLEQ(fv, x) if agg == 'Min' else fpGEQ(fv, x))))
+        return out
+    vs = discharge(ex, results, post)
+    outv = []
+    for v in vs:
+        d = {'name': v.name, 'status': v.status, 'secs': v.secs, 'kind': v.kind}
+        if v.model is not None: d['witness'] = str(v.model)[:500]
+        outv.append(d)
+    return {'fn': '%s::%s' % (agg, method), 'n': k, 'paths': len(results), 'verdicts': outv, 'queries': ex.queries, 'solver_s': ex.solver_s, 'inconclusive': list(ex.inconclusive), 'wall_s': time.time() - t0}
+
+
+_CORE = None
